@@ -5,7 +5,7 @@ numeric problem has, inside a fully diagonalised block (or the single block), gr
 (1e-3, 2^-10, 1e-6 — the documented way of treating quasi-degenerate levels as degenerate) or of the default one:
   * clusters: all members pairwise closer than atol;
   * chains: neighbours closer than atol, the ends farther apart (equal only through their neighbours);
-  * pairs a fraction of atol apart sitting on either side of a multiple of atol;
+  * pairs a fraction of atol apart sitting on either side of a multiple of atol; pairs exactly atol apart (equal: the solver divides only above atol);
 all other levels are far apart (gaps >= 0.3).  Kept = same block and (block not fully diagonalised, or levels connected by steps below atol).
 Oracles, in floating point on dense matrices, orders 0..3, every element:
   C01  sum U†_a H_b U_c = H_tilde, and H_tilde vanishes on every element that is not kept;
@@ -34,8 +34,10 @@ def gen(rnd):
     for b in range(N):
         lv = []; ngroups = rnd.randint(1, 2) if b == 0 else rnd.choice([0, 1])
         for _ in range(ngroups):
-            kind = rnd.choice(["cluster", "chain", "straddle"]); base += rnd.uniform(0.4, 2.0)
+            kind = rnd.choice(["cluster", "chain", "straddle"] + (["boundary"] if atol == 2.0 ** -10 else [])); base += rnd.uniform(0.4, 2.0)
+            if kind == "boundary": base = round(base * 64) / 64      # (binary fractions: the difference of the two levels is exactly atol)
             if kind == "cluster": m = rnd.randint(2, 3); offs = sorted(rnd.uniform(0, 0.9) for _ in range(m)); offs = [o - offs[0] for o in offs]
+            elif kind == "boundary": m = 2; offs = [0.0, 1.0]
             elif kind == "chain": m = rnd.randint(3, 4); offs = [0.0]; [offs.append(offs[-1] + rnd.uniform(0.55, 0.95)) for _ in range(m - 1)]
             else:
                 m = 2; q = rnd.randint(1, 2000); base = q * 0.5 * atol * rnd.choice([1, 2]) if atol > 1e-9 else float(rnd.randint(1, 9)) / 4      # the middle of a grid cell, or its edge
@@ -76,7 +78,7 @@ def main(seed, ncases, driver, out, prop=None):
         if P["fd"] is not None: kw["fully_diagonalize"] = P["fd"]
         fdset = set(P["fd"]) if P["fd"] is not None else {0}      # (a single block is fully diagonalised by default)
         # kept: the same block, and — when the block is fully diagonalised — levels connected by steps below atol
-        close = (np.abs(E.reshape(-1, 1) - E) < atol) & (blocks.reshape(-1, 1) == blocks)
+        close = (np.abs(E.reshape(-1, 1) - E) <= atol) & (blocks.reshape(-1, 1) == blocks)
         _, lab = sparse.csgraph.connected_components(close, directed=False)
         kept = np.array([[blocks[a] == blocks[b] and (blocks[a] not in fdset or lab[a] == lab[b]) for b in range(d)] for a in range(d)])
         maxo = 3 if k == 1 else 2
